@@ -25,6 +25,7 @@ type ReplayAdapter struct {
 	Test       string   `json:"test"`
 	Bound      string   `json:"bound"`
 	Properties []string `json:"properties"`
+	Quick      bool     `json:"quick"` // also run in the quick tier (bounded stand-in for code outside the verified subset)
 }
 
 type ReplayResult struct {
@@ -155,12 +156,24 @@ func runReplay(reg []ReplayAdapter, o *Obligation, prop string, wd string) *Repl
 
 // runStandins executes every adapter of the property's functions (thorough tier): the executable contracts
 // must hold on the whole bounded space.
-func runStandins(reg []ReplayAdapter, pr *PropertyRun, prop string, wd string) []map[string]any {
+func runStandins(reg []ReplayAdapter, pr *PropertyRun, prop string, wd string, quickOnly bool) []map[string]any {
 	var out []map[string]any
 	done := map[string]bool{}
-	for _, fn := range pr.Funcs {
+	// functions under contract for this property, plus functions only covered by an adapter registered for it
+	fns := append([]string{}, pr.Funcs...)
+	for _, a := range reg {
+		if hasProp(a.Properties, prop) {
+			for _, f := range a.Functions {
+				fns = append(fns, f)
+			}
+		}
+	}
+	for _, fn := range fns {
 		a := findAdapter(reg, fn)
-		if a == nil {
+		if a == nil || !hasProp(a.Properties, prop) {
+			continue
+		}
+		if quickOnly && !a.Quick {
 			continue
 		}
 		r := runAdapter(a, wd)
